@@ -295,7 +295,10 @@ func runC13(seed int64, tier string, sc *Script) map[string]any {
 			case 0:
 				size++
 			case 1:
-				if c.isManifest(mt) {
+				// (a manifest that names a subject keeps its one media type: the same bytes
+				// pushed as two manifest kinds would be two referrers of one digest - the
+				// one-(mediaType,size)-per-digest universe of the property excludes that)
+				if c.isManifest(mt) && b.subj < 0 {
 					mt = []string{"img", "idx"}[rng.Intn(2)]
 				}
 			}
